@@ -21,6 +21,45 @@ func c13Ep(i int) endpoint.Endpoint {
 	return endpoint.Endpoint{Host: c13Hosts[i], Port: int32(1000 + i), Weight: 100}
 }
 
+var c13Lists [8][]endpoint.Endpoint
+
+// the caller's list for a subset, built once per run and passed to every Refresh of that subset
+func c13List(mask int) []endpoint.Endpoint {
+	if c13Lists[mask] == nil {
+		eps := make([]endpoint.Endpoint, 0, 3)
+		for i := 0; i < 3; i++ {
+			if mask&(1<<uint(i)) != 0 {
+				eps = append(eps, c13Ep(i))
+			}
+		}
+		c13Lists[mask] = eps
+	}
+	return c13Lists[mask]
+}
+
+// the selector never changes a list the caller handed to Refresh
+func c13ListsIntact() bool {
+	ok := true
+	for mask, l := range c13Lists {
+		if l == nil {
+			continue
+		}
+		k := 0
+		for i := 0; i < 3; i++ {
+			if mask&(1<<uint(i)) != 0 {
+				if k >= len(l) || l[k].Host != c13Hosts[i] {
+					ok = false
+				}
+				k++
+			}
+		}
+		if k != len(l) {
+			ok = false
+		}
+	}
+	return ok
+}
+
 func c13HostIndex(h string) int {
 	for i, x := range c13Hosts {
 		if x == h {
@@ -36,14 +75,12 @@ func c13History(s *Random, steps int) [3]bool {
 		switch vapi.Choice("op", 4) {
 		case 0: // Refresh with any subset
 			mask := vapi.Choice("mask", 8)
-			var eps []endpoint.Endpoint
 			for i := 0; i < 3; i++ {
 				member[i] = mask&(1<<uint(i)) != 0
-				if member[i] {
-					eps = append(eps, c13Ep(i))
-				}
 			}
-			s.Refresh(eps)
+			// the caller keeps its lists: refreshing twice with the same subset passes the SAME
+			// slice again (as endpointManager does with its registry lists)
+			s.Refresh(c13List(mask))
 		case 1:
 			i := vapi.Choice("host", 3)
 			err := s.Add(c13Ep(i))
@@ -58,6 +95,7 @@ func c13History(s *Random, steps int) [3]bool {
 			c13Select(s, member)
 		}
 	}
+	vapi.Check(c13ListsIntact(), "the selector never modifies a list the caller passed to Refresh")
 	return member
 }
 
